@@ -33,6 +33,10 @@ CLAIMS = {
   text="first half of the property (basic types): every function literal that Universe.addBasicTypeMethodsCTI installs for method M of basic kind K (279 literals: Equal, Cmp, Less, Add, Sub, Mul, Quo, Rem, Neg, And, AndNot, Or, Xor, Not, Lsh, Rsh, Real, Imag, Index, Len, Slice x 17 kinds) is proved to return the Go operator / builtin of that name on the same operands, evaluated in K by Go's rules (wrap-around, IEEE, shift counts), for all operand values, and to have no effect; a literal without a clause, or a clause without a literal, fails",
   note="trusted: go/ssa front end, SMT solvers, machine arithmetic as specified by Go; strings are an uninterpreted model (Index/Slice/Len compared through the same indexing function). Not covered: container methods through reflection (cti_method.go), method resolution in the compiler, signatures in go/types/cti_method.go",
   ref="DESIGN.md section 0.1, section 5 C34"),
+ "C22": dict(
+  text="partial: lemma functions (Go code under the build tag, calling the real methods) with contracts, for each of the 53 wrapper types: unwrapping a wrapped node returns the node (ToNode(ToAst(n)) == n for every node type, by case split over the wrapper types); the empty copy made by New is a fresh node of the same type with the same token, string, boolean and channel-direction attributes and the same 'if any' positions (alias '=', call '...', declaration '(', 'func'); Size is the documented constant and Get can be called for exactly the indexes 0..Size-1 (it fails for every other index) - for all nodes, not a corpus",
+  note="trusted: go/ssa front end, SMT solvers, closed world (every Ast value is one of the compiled wrapper types, generated interpreter proxies excepted), children of a node are nodes of the wrapped types and no typed nil pointers. Not covered: Set / Append and hence the round trip as a whole, what Get returns, list-like wrappers beyond New, Package (TODO in the code), positions / resolution information / comments",
+  ref="DESIGN.md section 0.1, section 5 C22"),
  "C26": dict(
   text="partial: the character-level state machine of base.ReadMultiline, for every input and every byte: the reader's mode after the byte is the lexical state Go's grammar assigns (code, after '/', line comment, general comment, general comment after '*', string / raw string / rune literal, after a backslash inside one; '#!' opens a line comment) and the bracket depth counts exactly the brackets read in code - stated as a transition relation of one loop iteration (loop step clauses) and proved for all iterations; so the mode 'code' and depth 0, in which alone a chunk is cut, mean 'not inside a string, raw string, rune, comment or unbalanced bracket'",
   note="trusted: go/ssa front end, SMT solvers, Readline hands over lines that end in a newline. Not covered: losslessness of the concatenation, the line-continuation rules (operators, commas, keywords), the cut test itself, prompts, first-token position, EvalReader / ReadParseEvalPrint",
@@ -100,7 +104,7 @@ def main():
         "setup_cmd": "cd /verif/gowp && GOFLAGS=-mod=vendor GOPROXY=off GOSUMDB=off GOTOOLCHAIN=local go build -o /verif/bin/gowp ./cmd/gowp",
         "hooks": {
             "guard": "verif",
-            "enable": "-tags verif (adds the comment-only contract files <pkg>/zz_verif_*.go; no executable hook)",
+            "enable": "-tags verif (adds the contract files <pkg>/zz_verif_*.go: comment-only, except ast2/zz_verif_ast2.go, which also holds the lemma functions of C22 - Go functions that call the real New / Get / Size / ToAst / ToNode and exist only under the tag; nothing in the normal build refers to them)",
             "baseline_off_cmd": "for m in $(cat /w/out/gomods.txt); do MF=$(cd /repo/$m && . /w/out/goenv.sh && gomodflag); (cd /repo/$m && go test $MF -json -vet=off -count=1 -timeout 25m ./...); done",
             "source_commits": hooks,
             "add_only": True,
